@@ -57,6 +57,11 @@ KINDS = ["set", "set", "tset", "new", "qset", "setq"]
 
 def corpus():
     return [
+        # F125 (fixed baa32de): the slow member of a nested compound resolves a forward reference and re-installs the
+        # trait's validator while validate_trait_complex walks it (was a use after free / segmentation fault)
+        "#n:forward-ref-in-nested-compound|-|(Either 0 (Either 0 (Either 0 Str (InstanceF 1)) Int) Int)|"
+        "set 0 (t);set 0 (t);set 1 (inst 6 (6) () 12);set 1 (s k);tset 0 N;new 1 (i 3);set 1 (t);set 0 (i 5);"
+        "set 0 (inst 2 (2) () 3);set 0 (t);set 0 (inst 2 (2) () 3)",
         make_case("(RangeF 0 4 0 0)", [("set", "(f nan)"), ("set", "(f 2)"), ("tset", "(nf 32 nan)")]),
         make_case("(Map ((s yes) (i 1)) ((s no) (i 0)))", [("set", "(s yes)"), ("set", "(s y)"), ("new", "(s no)")]),
         make_case("(PrefixMap (yes (i 1)) (no (i 0)))", [("set", "(s y)"), ("tset", "(ss no)"), ("set", "(s x)")]),
@@ -1133,7 +1138,19 @@ def nested_fwd_case(rng):
             mutate(False)
         else:
             mutate(True)
-    return "#n|-|%s|%s" % (tt, ";".join(ops))
+    return "#n:%s|-|%s|%s" % (crash_class(V.parse_sexp(tt)), tt, ";".join(ops))
+
+
+def crash_class(t):
+    """Second half of the kind field of an `#n` case: it ends up in the signature the engine gives a CRASH of the
+    case (`crash:n:forward-ref-in-nested-compound`), so that a crash is filed under the shape that produced it."""
+    compounds = ("Either", "CompoundH", "Union")
+    if isinstance(t, str):
+        return "forward-ref-in-" + t
+    if t[0] in compounds:
+        nested = any((not isinstance(m, str)) and m[0] in compounds for m in t[1:])
+        return "forward-ref-in-" + ("nested-compound" if nested else "compound")
+    return "forward-ref-in-" + t[0]
 
 
 def shape_of(t, depth=2):
@@ -1269,6 +1286,7 @@ def has_any_member(t):
 
 def run_impl(case):
     kind, env, a, b = case.lstrip("#").split("|")
+    kind = kind.split(":")[0]                      # `n:<crash class>`, see crash_class
     if kind == "r":
         return run_r(a, b)
     if kind == "e":
